@@ -42,6 +42,9 @@ pub enum Edit {
     /// by name is copied under new names (a subgraph nobody uses), then `inner` damages the
     /// copy (`inner` addresses lines of the text after the copy was inserted)
     CloneDamaged { line: usize, inner: Box<Edit> },
+    /// generated project: the definition whose header is at `line` and every reference to it are
+    /// renamed consistently to `new_name` (e.g. the name of a catalogue entry)
+    RenameEverywhere { line: usize, new_name: String },
     /// C02: definition header renamed (references untouched)
     DefRenamed { line: usize },
     /// C02: definition block removed
@@ -68,6 +71,7 @@ impl Edit {
             Edit::ValueSwap { .. } => "proj.option_value",
             Edit::SpaceEmptied { .. } => "proj.space_emptied",
             Edit::CloneDamaged { .. } => "proj.unused_copy_damaged",
+            Edit::RenameEverywhere { .. } => "proj.renamed_consistently",
             Edit::DefRenamed { .. } => "disk.def_renamed",
             Edit::DefRemoved { .. } => "disk.def_removed",
             Edit::RefRenamed { .. } => "disk.ref_renamed",
@@ -90,6 +94,7 @@ impl Edit {
             | Edit::ValueSwap { line, .. }
             | Edit::SpaceEmptied { line }
             | Edit::CloneDamaged { line, .. }
+            | Edit::RenameEverywhere { line, .. }
             | Edit::DefRenamed { line }
             | Edit::DefRemoved { line }
             | Edit::RefRenamed { line, .. } => Some(*line),
@@ -567,6 +572,14 @@ pub fn apply(text: &str, e: &Edit) -> Option<String> {
             let mut v = lines.clone();
             v[*line] = &newl;
             Some(join(&v))
+        }
+        Edit::RenameEverywhere { line, new_name } => {
+            let l = get(*line)?;
+            let (old, _) = header_of(l)?;
+            if old == *new_name || old.is_empty() {
+                return None;
+            }
+            Some(text.replace(&format!("\"{}\"", old), &format!("\"{}\"", new_name)))
         }
         Edit::CloneDamaged { line, inner } => {
             let (t, _) = clone_subgraph(text, *line)?;
